@@ -40,21 +40,7 @@ Definition geom_close (m i : geom) : list bool :=
     list_eqb obox_close (g_groups m) (g_groups i);
     list_eqb (fun a b => pt_close (fst a) (fst b) && pt_close (snd a) (snd b)) (g_lifelines m) (g_lifelines i) ].
 
-(* ---- rounding: the implementation's x is an integer within 1/2 (+tol) of the model's argument ---- *)
-Definition is_int (x : Q) : bool := Qeq_bool (iz (Qfloor x)) x.
 Definition impl_xs (impl : geom) : list Q := map (fun b => b_x b - GROUP_CONTAINER_PADDING) (g_actors impl).
-Definition rounding_b (inp : input) (xs : list Q) : bool :=
-  Nat.eqb (length xs) (length (i_actors inp)) &&
-  forallb (fun r => let x := nth r xs 0 in let v := unrounded_x inp r in
-                    is_int x && Qle_bool (x - v) ((1#2) + tol) && Qle_bool (v - x) ((1#2) + tol))
-          (seq 0 (length xs)).
-
-(* ---- declaration order on the implementation's geometry: all pairs (Order.pairs_ok) ---- *)
-Definition left_of (a b : box) : bool := qlt_b (b_x a) (b_x b).
-Definition above (r1 r2 : list pt) : bool := qlt_b (max_y_of' r1) (min_y_of r2).
-
-Definition actor_ids (objs_in : list (Z * nat * bool)) (objs_out : list nat) : list nat :=
-  filter (fun i => existsb (fun o => let '(_, j, isa) := o in Nat.eqb i j && isa) objs_in) objs_out.
 
 Definition check_case (c : case) : list N :=
   match c with
@@ -65,11 +51,11 @@ Definition check_case (c : case) : list N :=
       flag (rounding_b inp xs) 1
       ++ flag (forallb (fun b => b) (geom_close model impl)) 1
       (* oracle hypotheses of the order theorem *)
-      ++ flag (sorted_perm_b (map (fun o => (fst (fst o), snd (fst o))) objs_in) objs_out
+      ++ flag (sorted_perm_b (obj_keys objs_in) objs_out
                && sorted_perm_b msgs_in msgs_out) 2
-      ++ flag (stable_b (map (fun o => (fst (fst o), snd (fst o))) objs_in) objs_out
+      ++ flag (stable_b (obj_keys objs_in) objs_out
                && stable_b msgs_in msgs_out) 3
-      ++ flag (text_order_b (map (fun o => (fst (fst o), snd (fst o))) objs_in)
+      ++ flag (text_order_b (obj_keys objs_in)
                && text_order_b msgs_in) 4
       ++ flag (wf_b inp) 5
       (* the property on the implementation's own geometry *)
